@@ -7,7 +7,11 @@ id="$1"; patch="$2"; demo="$3"; name="$4"
 wt=${WT:-/tmp/wt}/$id
 cd "$wt" || exit 2
 git checkout -q -- . ; rm -f tests/demo_mutant.rs
-git apply "mutant/$patch" || { echo "APPLY-FAIL"; exit 1; }
+# the stored patch is taken against /repo's current HEAD (a patch written against an older HEAD is
+# applied with reduced context and re-generated)
+git checkout -q --detach "$(git -C /repo rev-parse HEAD)"
+git apply "mutant/$patch" 2>/dev/null || git apply -C1 "mutant/$patch" || { echo "APPLY-FAIL"; exit 1; }
+git diff > "mutant/$patch.rebased"
 suite=$(cargo test --workspace --no-fail-fast --offline 2>&1 | grep -E "^test result" | tr '\n' ' ')
 echo "suite with patch: $suite"
 echo "$suite" | grep -q "FAILED\|failed; [1-9]" && { echo "SUITE-FAILS"; git checkout -q -- .; exit 1; }
@@ -23,7 +27,7 @@ echo "$with" | grep -q "FAILED" || { echo "DEMO-DOES-NOT-FAIL-WITH-PATCH"; exit 
 echo "$without" | grep -q "ok\." || { echo "DEMO-DOES-NOT-PASS-WITHOUT-PATCH"; exit 1; }
 echo "$without" | grep -q "FAILED" && { echo "DEMO-FAILS-WITHOUT-PATCH"; exit 1; }
 mkdir -p /verif/seeded/$name
-cp "mutant/$patch" /verif/seeded/$name/patch.diff
+cp "mutant/$patch.rebased" /verif/seeded/$name/patch.diff
 cp "mutant/$demo" /verif/seeded/$name/demo.rs
 cat > /verif/seeded/$name/confirm.log <<EOT
 worktree: $wt (scratch git worktree of /repo HEAD)
